@@ -9,6 +9,7 @@ let words (s : string) : string list = List.filter (fun w -> w <> "") (String.sp
      RUN <cfg> <READ> <MAX> <threads,…> <filehex|-> <oracle|->
    cfg    = cur | legacy | six 0/1 flags (lencheck timeguard wcclamp sizewide payslice reportall)
    oracle = comma separated  md5hex:numhex/denhex  |  md5hex:-      (P1 stamp of (type, version, payload), see c08_impl.py)
+            or the word none (no message has a P1 time)
    output = {"spec":[[t|null,type,off,idx],…],"runs":{"<W>":[…] | {"raise":"ExcType"}}}  or {"error":…} *)
 let n_of_int (i : int) : n = if i = 0 then N0 else Npos (pos_of_int i)
 let int_of_n (x : n) : int = match x with N0 -> 0 | Npos p -> int_of_pos p
@@ -92,7 +93,7 @@ let () =
           let cfg = parse_cfg cfg in
           let rd = n_of_int (int_of_string r) and mx = n_of_int (int_of_string m) in
           let file = bytes_of_hex (if fh = "-" then "" else fh) in
-          let ptime = make_ptime (parse_oracle orc) in
+          let ptime = if orc = "none" then (fun _ _ _ -> None) else make_ptime (parse_oracle orc) in
           let spec = show_entries (fi_spec_x ptime file) in
           let runs = List.map (fun w ->
               let res = (try (match fi_generate rd mx cfg ptime file (n_of_int (int_of_string w)) with
